@@ -325,6 +325,7 @@ func runC16(c *core.Ctx, res *core.Result) {
 			}, false},
 			{"rpc.GetStats", func() error { _, e := cl.GetStats(ctx, &pb.GetStatsRequest{}); return e }, false},
 			{"rpc.Compact", func() error { cl.Compact(ctx, &pb.CompactRequest{}); return nil }, false},
+			{"rpc.Compact(force)", func() error { cl.Compact(ctx, &pb.CompactRequest{Force: true}); return nil }, false},
 		}
 		// make sure the list covers the generated client (new RPCs must be added here deliberately)
 		known := map[string]bool{"RollbackTransaction": true, "TxGet": true, "TxScan": true, "GetNodeInfo": true}
